@@ -6,22 +6,6 @@ import OV.Lemmas.C06Top
 -/
 namespace OV.C06
 
-mutual
-/-- node patterns a value pattern refers to (through OR alternatives too) -/
-def VPat.refs : VPat → List NPId
-  | .out q _ => [q]
-  | .orD _ _ _ alts => alts.map (·.np)
-  | .orB _ _ _ _ alts => refsL alts
-  | _ => []
-def refsL : List VPat → List NPId
-  | [] => []
-  | a :: rest => a.refs ++ refsL rest
-end
-
-/-- node patterns only refer (also inside OR alternatives) to node patterns created before them -/
-def GPat.topoDeep (p : GPat) : Prop :=
-  ∀ (np : NPId) (P : NPat), p.nodes[np]? = some P → ∀ vp : VPat, some vp ∈ P.inputs → ∀ q ∈ vp.refs, q < np
-
 structure SALe (a a' : SA) : Prop where
   b : ∀ k x, a.names.lookup k = some x → a'.names.lookup k = some x
   v : ∀ k x, a.leaf.lookup k = some x → a'.leaf.lookup k = some x
